@@ -2,7 +2,7 @@
 // ops (i = list number): pb:i:v pf:i:v pop:i cl:i  mins:i:k:v / mrem:i:k (beginModify(), k increments, insert/remove)
 //   mend:i:v endModify().insert(v)   iaft:i:k:v / idel:i:k (iterator at element k: insertAfter / deleteNext)
 //   asg:i  L_i = L_{1-i}   self:i  L_i = L_i   cpy:i  L_{1-i} = SLList(L_i)
-// observation per step: size,empty[elements] for both lists, then (L0==L1)(L0!=L1)
+// observation per step: size,empty[elements] for both lists, then (L0==L1)(L0!=L1), then it=<where the ModifyIterator stands>
 // With -DC11_DEEP -fno-access-control (OPTIONAL build; see arraylist.cc) the private members are read instead; observation per step, for both lists:
 //   (tail_ is the last node reachable from beforeHead_)(size_ == number of reachable nodes)
 #include <config.h>
@@ -41,7 +41,7 @@ static void run(const std::vector<std::string>& ops)
   SL L[2];
   for (const auto& o : ops) {
     auto t = c11::split(o, ':');
-    std::string flags;
+    std::string flags, itpos = "_";                 // where the ModifyIterator stands afterwards: _ none used, - endModify(), else *it
     int i = t.size() > 1 ? (int) c11::num(t[1]) : 0;
     SL& l = L[i];
     if (t[0] == "pb") l.push_back((int) c11::num(t[2]));
@@ -54,6 +54,7 @@ static void run(const std::vector<std::string>& ops)
       bool atend = (it == l.endModify()); int before = atend ? 0 : *it;
       it.insert((int) c11::num(t[3]));
       if (atend ? !(it == l.endModify()) : (*it != before)) flags += "!mins";   // "will point to the same element as before"
+      itpos = (it == l.endModify()) ? std::string("-") : std::to_string(*it);
     }
     else if (t[0] == "mrem") {
       SL::ModifyIterator it = l.beginModify();
@@ -63,8 +64,12 @@ static void run(const std::vector<std::string>& ops)
       // "positioned at the next position after the deletion"
       SL::const_iterator c = static_cast<const SL&>(l).begin(); for (long j = k; j > 0; --j) ++c;
       if (c == static_cast<const SL&>(l).end() ? !(it == l.endModify()) : (it == l.endModify() || *it != *c)) flags += "!mrem";
+      itpos = (it == l.endModify()) ? std::string("-") : std::to_string(*it);
     }
-    else if (t[0] == "mend") l.endModify().insert((int) c11::num(t[2]));
+    else if (t[0] == "mend") {
+      SL::ModifyIterator it = l.endModify(); it.insert((int) c11::num(t[2]));
+      itpos = (it == l.endModify()) ? std::string("-") : std::to_string(*it);
+    }
     else if (t[0] == "iaft") { SL::iterator it = l.begin(); for (long k = c11::num(t[2]); k > 0; --k) ++it; it.insertAfter((int) c11::num(t[3])); }
     else if (t[0] == "idel") { SL::iterator it = l.begin(); for (long k = c11::num(t[2]); k > 0; --k) ++it; it.deleteNext(); }
     else if (t[0] == "asg") l = L[1 - i];
@@ -113,7 +118,7 @@ static void run(const std::vector<std::string>& ops)
       for (SL::const_iterator x = c.begin(); x != c.end(); ++x) b.push_back(*x);
       if (a != b) flags += "!iter";
     }
-    c11::step_done(obs1(L[0]) + " " + obs1(L[1]) + " " + (L[0] == L[1] ? "1" : "0") + (L[0] != L[1] ? "1" : "0") + flags);
+    c11::step_done(obs1(L[0]) + " " + obs1(L[1]) + " " + (L[0] == L[1] ? "1" : "0") + (L[0] != L[1] ? "1" : "0") + " it=" + itpos + flags);
   }
 }
 
